@@ -86,6 +86,10 @@ XalanSourceTreeParserLiaison::reset()
 
     MemoryManager&  theManager = getMemoryManager();
 
+    // (empty() does not create the head node of a container that has
+    // never been used, which begin() would; this is called from
+    // destructors, which must not allocate memory.)
+    if (m_documentMap.empty() == false)
     for (iterator i = m_documentMap.begin(); i != m_documentMap.end(); ++i)
     {
         assert((*i).second != 0);
